@@ -86,10 +86,23 @@ def hyp(acc, n, seed):
 def fuzz(acc, seed, runs):
     from ..fuzzing import run_atheris
 
-    run_atheris(
-        acc, sys.modules[MOD], "wheel", lambda data: {"name": data.decode("ascii", "ignore")}, seed, runs, max_len=64, layer="atheris-bytes",
-        seeds=["foo-1.0-py3-none-any.whl", "foo_bar-1.0-1-cp39.cp310-abi3-manylinux_2_17_x86_64.manylinux2014_x86_64.whl"],
-    )
+    run_atheris(acc, sys.modules[MOD], "wheel", _decode_tokens, seed, runs, max_len=16, layer="atheris-tokens", seeds=[bytes([0, 0, 0, 1, 0, 7, 0, 11, 0, 14]), bytes([0, 0, 0, 1, 0, 4, 0, 8, 0, 12, 0, 15])], ascii_only=False)
+
+
+_F_COMP = ["foo", "1.0", "bar", "2!1.0", "1", "1abc", "1.0+l", "py3", "cp39", "cp310", "pp39", "none", "abi3", "cp313t", "any",
+         "manylinux_2_17_x86_64", "manylinux2014_x86_64", "win_amd64", "macosx_10_9_universal2", "linux_armv7l", "1.0.post1", "a", "0", "X", ""]
+_F_SEP = ["-", "-", "-", "-", ".", "_", "", "--"]
+_F_EXT = [".whl"] * 6 + [".zip", ""]
+
+
+def _decode_tokens(data: bytes):
+    """Structure-aware layer: byte 0 picks the extension, then components and separators alternate."""
+    if not data:
+        return {"name": ""}
+    parts = []
+    for i, b in enumerate(data[1:]):
+        parts.append(_F_COMP[b % len(_F_COMP)] if i % 2 == 0 else _F_SEP[b % len(_F_SEP)])
+    return {"name": "".join(parts) + _F_EXT[data[0] % len(_F_EXT)]}
 
 
 def platform_strings():
